@@ -1,6 +1,7 @@
 package h
 
 import (
+	"context"
 	"errors"
 	"fmt"
 	"math/rand/v2"
@@ -300,6 +301,10 @@ var errByName = map[string]error{
 	"io":           errors.New("nats: i/o timeout"),
 	"disconnected": nats.ErrDisconnected,
 	"nostream":     nats.ErrNoStreamResponse,
+	// what a client with per-request contexts says when one of them ends (the election's own
+	// contexts are alive): the operation failed, nothing more
+	"canceled": fmt.Errorf("nats: request abandoned: %w", context.Canceled),
+	"deadline": fmt.Errorf("nats: request: %w", context.DeadlineExceeded),
 }
 
 type plan struct {
@@ -583,6 +588,34 @@ func (s *Store) OutsideExpire(key string) {
 	prevFields(&ae, s.m.last(key, now))
 	s.m.Drop(key)
 	s.tr.Add(ae)
+	if s.OnChange != nil {
+		s.OnChange(key, "outside.expire")
+	}
+}
+
+// OutsideReset models the bucket being deleted and created again by an operator: every
+// record is gone without any notification, the stream's sequence numbers start over at 1,
+// and the watches on the old stream end.
+func (s *Store) OutsideReset(key string) {
+	s.mu.Lock()
+	defer s.mu.Unlock()
+	now := time.Now()
+	ae := Event{Kind: "store.apply", Inst: "outside", Op: "Expire", Key: key, OK: true, S: "bucket-recreated"}
+	prevFields(&ae, s.m.last(key, now))
+	for k := range s.m.Keys {
+		s.m.Drop(k)
+	}
+	s.m.Seq = 0
+	s.tr.Add(ae)
+	for _, w := range s.watchers {
+		if !w.stopped && !w.closeCh {
+			w.closeCh = true
+			select {
+			case w.wake <- struct{}{}:
+			default:
+			}
+		}
+	}
 	if s.OnChange != nil {
 		s.OnChange(key, "outside.expire")
 	}
